@@ -15,7 +15,7 @@ import (
 )
 
 func FollowLinks(fs FS, paths []string) ([]string, error) {
-	r := &symlinkResolver{fs: fs, resolved: map[string]struct{}{}}
+	r := &symlinkResolver{fs: fs, resolved: map[string]struct{}{}, visited: map[string]int{}}
 	for _, p := range paths {
 		if err := r.append(p); err != nil {
 			return nil, err
@@ -29,12 +29,27 @@ func FollowLinks(fs FS, paths []string) ([]string, error) {
 	return dedupePaths(res), nil
 }
 
+// maxFollowedLinks is the number of symlinks followed for a single path
+// before giving up, like the kernel does (ELOOP).
+const maxFollowedLinks = 40
+
 type symlinkResolver struct {
 	fs       FS
 	resolved map[string]struct{}
+	// visited is the guard against cycles. It is keyed on the link together
+	// with the path that remains to be resolved behind it: the same link may
+	// legitimately be passed again with a different remainder. The value is
+	// the number of links that had been followed when the pair was expanded:
+	// a later visit that has followed fewer links gets further before
+	// maxFollowedLinks and is expanded again.
+	visited map[string]int
 }
 
 func (r *symlinkResolver) append(p string) error {
+	return r.follow(p, 0)
+}
+
+func (r *symlinkResolver) follow(p string, depth int) error {
 	if runtime.GOOS == "windows" && filepath.IsAbs(filepath.FromSlash(p)) {
 		absParts := strings.SplitN(p, ":", 2)
 		if len(absParts) == 2 {
@@ -56,16 +71,15 @@ func (r *symlinkResolver) append(p string) error {
 			p = parts[1]
 		}
 
-		if p == "" || targets != nil {
-			if _, ok := r.resolved[current]; ok {
-				return nil
-			}
-		}
-
 		if targets != nil {
 			r.resolved[current] = struct{}{}
+			key := current + "\x00" + p
+			if d, ok := r.visited[key]; (ok && d <= depth) || depth >= maxFollowedLinks {
+				return nil
+			}
+			r.visited[key] = depth
 			for _, target := range targets {
-				if err := r.append(filepath.Join(target, p)); err != nil {
+				if err := r.follow(filepath.Join(target, p), depth+1); err != nil {
 					return err
 				}
 			}
